@@ -66,6 +66,15 @@ def run(tier):
         extra.update({"slice_depth": cfg["slice_depth"], "slice_states": s2["states"], "slice_new_states": len(add)})
         st["states"] += len(add)
         st["transitions"] += s2["transitions"]
+    chain_depth = 3 if tier == "quick" else 4
+    ex3 = explorer.Explorer(c01.chain_menu)
+    st3 = ex3.run(chain_depth)
+    seen_h = {H.hist_key(h) for h in hists}
+    add3 = [s.hist for s in st3 if H.hist_key(s.hist) not in seen_h]
+    hists += add3
+    extra.update({"chain_depth": chain_depth, "chain_new_states": len(add3)})
+    st["states"] += len(add3)
+    st["transitions"] += ex3.stats()["transitions"]
     hists = core.rotate(hists, run.seed)
     open_ids = list(run.open_findings)
     for p in core.pmap(work, [(c, cfg, open_ids) for c in core.chunks(hists, 40)]):
@@ -85,6 +94,7 @@ def run(tier):
         exhaustive=True,
         rule=f"all pipelines reachable in <= {cfg['depth']} builder calls over the core menu"
         + (f" plus <= {cfg['slice_depth']} calls over the SQL-translation slice" if cfg["slice_depth"] else "")
+        + f" plus <= {chain_depth} calls over the extend-chain slice"
         + f", each on all multisets of <= {cfg['kd']} rows over the {len(cfg['d_rows'])}-row alphabet of d (<= {cfg['ke']} rows of e when read), as pl.DataFrame and pl.LazyFrame; a case is one (pipeline, input, frame kind) triple",
         extra=extra,
     )
